@@ -34,6 +34,20 @@ func init() {
 			c.Compare(stream+".truth", op, M{"match": impl["ok"]}, M{"match": ex}, class, true)
 		}
 		c.Compare(stream, op, M{"match": impl["ok"]}, M{"match": model["match"]}, class, true)
+		// the same question through an authentication ceremony (the property speaks of both ceremonies)
+		kp := genKeyPair(r, algES256)
+		as := newAuthSpec(r, rpOrigin, kp, r.Bytes(16), r.Bytes(8), kp.COSE(true))
+		as.Client = client
+		as.CDExtra = nil
+		as.RPID = rpid
+		if as.RPID == nil {
+			as.RPID = []byte{}
+		}
+		aimpl := runAuthImpl(buildAssertion(r, as))
+		if ex, ok := op["_expect"].(bool); ok {
+			c.Compare(stream+".auth.truth", op, M{"match": aimpl["ok"]}, M{"match": ex}, class, true)
+		}
+		c.Compare(stream+".auth", op, M{"match": aimpl["ok"]}, M{"match": model["match"]}, class, true)
 	}
 	executors["rpid.hash"] = func(c *Ctx, stream string, op M) {
 		// honest registration whose authenticator data hashes `hashed` instead of the RP host
